@@ -45,7 +45,9 @@ def gen_case(cid, c):
     types = ['int'] * n
     if n:
         types[i - 1] = ptype(mode)
-    ret = 'int&' if (mode == 'lref' and kind != 'throw') else ('void' if kind == 'throw' else 'int')
+    # a reference parameter is also handed back as the function's result (int&, int const&, CC const&): it must be the caller's object
+    refret = {'lref': 'int&', 'clref': 'int const&', 'ccref': 'CC const&'}.get(mode) if kind != 'throw' else None
+    ret = refret or ('void' if kind == 'throw' else 'int')
     sig = '%s(%s)' % (ret, ', '.join(types))
     const = kind == 'const'
     L = []
@@ -102,6 +104,8 @@ def gen_case(cid, c):
         L.append('    .THROW((rec(%d, F_STABLE_R, %s == g_self), rec(%d, F_RETAL, %s == g_addr), 5));' % (cid, self_expr, cid, addr_expr))
     elif mode == 'lref':
         L.append('    .RETURN(%s);' % pi)
+    elif refret:
+        L.append('    .RETURN((rec(%d, F_STABLE_R, %s == g_self), %s));' % (cid, self_expr, pi))
     elif n:
         L.append('    .RETURN((rec(%d, F_STABLE_R, %s == g_self), 0));' % (cid, self_expr))
     else:
@@ -118,8 +122,8 @@ def gen_case(cid, c):
     callee = 'static_cast<%s const&>(m)' % name if const else ('static_cast<I%d&>(m)' % cid if kind == 'implement' else 'm')
     if kind == 'throw':
         L.append('  try { %s.f(%s); } catch (int) {}' % (callee, ', '.join(callargs)))
-    elif mode == 'lref':
-        L.append('  int& r = %s.f(%s); rec(%d, F_RETAL, &r == &obj);' % (callee, ', '.join(callargs), cid))
+    elif refret:
+        L.append('  %s r = %s.f(%s); rec(%d, F_RETAL, &r == &obj);' % (refret, callee, ', '.join(callargs), cid))
     else:
         L.append('  (void)%s.f(%s);' % (callee, ', '.join(callargs)))
     L.append('  rec(%d, F_COPIES, CC::copies);' % cid)
